@@ -1,4 +1,5 @@
 import UtpVerif.Driver.Pure
+import UtpVerif.Driver.Wire
 /-!
 Line-protocol driver: one op per input line (`<component> <op> args…`), one output line per op.
 The Rust harness (`/verif/harness`) executes the same lines on the real code; `tools/check.py`
@@ -13,6 +14,7 @@ def step (st : St) (line : String) : St × String :=
   match toks line with
   | ["nop"] => (st, "ok")
   | "seqnr" :: args => (st, stepSeqNr args)
+  | "wire" :: args => (st, stepWire args)
   | "rtte" :: args => let (r, o) := stepRtte st.rtte args; ({ st with rtte := r }, o)
   | _ => (st, "bad-op")
 
